@@ -256,6 +256,12 @@ class Prop(Check):
         "Link.C10_no_parent",
         "Link.C10_no_ref",
         "Link.C10_pinned_false",
+        "Link.C10_path_complete",
+        "Link.C10_path_defined_iff",
+        "Link.C10_iff'",
+        "Link.C10_iff_desc",
+        "Link.C10_unknown_iff'",
+        "Link.C10_no_ref'",
     ]
     DRIVER = "Drivers/Link.lean"
     QUICK_CASES = 450
